@@ -47,4 +47,37 @@ if "in.message.text.with_skdm" not in c.BY_NAME:
         k = c._in("in.notification.encrypt.%s" % child, "YowNotificationsProtocolLayer", None, "notification", _encrypt(child),
                   reaction=c.react_notification_ack, reaction_layer="YowNotificationsProtocolLayer", reaches_top=False,
                   notes="needs-manager; iq stanzas may follow the ack (key upload / key fetch)")
+    # retry receipts (axolotl package): registration ids over the full 32-bit range
+    import struct
+
+    def _regid(rng):
+        return rng.choice([0, 1, 0x3fff, 0x7fffffff, 0x80000000, 0xffffffff, rng.getrandbits(32), rng.getrandbits(14)])
+
+    def _retry_in(rng, variant, request):
+        group = variant == "group"
+        mid = c.gen_id(rng)
+        attrs = {"id": mid, "t": c.gen_ts(rng), "type": "retry", "from": c.gen_gjid(rng) if group else c.gen_jid(rng)}
+        if group:
+            attrs["participant"] = c.gen_jid(rng)
+        return c.N("receipt", attrs, [c.N("retry", {"count": str(c.bint(rng, 1, 5)), "id": mid, "v": "1", "t": c.gen_ts(rng)}),
+                                      c.N("registration", {}, None, struct.pack(">I", _regid(rng)))])
+    c._in("in.receipt.retry", "AxolotlSendLayer", "yowsup.layers.axolotl.protocolentities.receipt_incoming_retry.RetryIncomingReceiptProtocolEntity",
+          "receipt", _retry_in, variants=("group",), reaches_top=False, notes="axolotl-state")
+
+    def _retry_out_draw(rng):
+        return {"id": c.gen_id(rng), "jid": c.gen_jid(rng), "reg": _regid(rng), "t": c.gen_ts(rng), "count": c.bint(rng, 1, 5),
+                "participant": c.gen_jid(rng) if rng.random() < 0.4 else None}
+
+    def _retry_out_node(v):
+        attrs = {"id": v["id"], "to": v["jid"], "type": "retry"}
+        if v["participant"]:
+            attrs["participant"] = v["participant"]
+        return c.N("receipt", attrs, [c.N("retry", {"count": str(v["count"]), "id": v["id"], "v": "1", "t": v["t"]}),
+                                      c.N("registration", {}, None, struct.pack(">I", v["reg"]))])
+
+    def _retry_out_entity(v):
+        cls = c.load_class("yowsup.layers.axolotl.protocolentities.receipt_outgoing_retry.RetryOutgoingReceiptProtocolEntity")
+        return cls(v["id"], v["jid"], v["reg"], v["t"], count=v["count"], participant=v["participant"])
+    c._out("out.receipt.retry", "AxolotlReceivelayer", "yowsup.layers.axolotl.protocolentities.receipt_outgoing_retry.RetryOutgoingReceiptProtocolEntity",
+           "receipt", _retry_out_draw, _retry_out_node, _retry_out_entity, notes="axolotl-state")
     c.BY_NAME.update({k.name: k for k in c.KINDS})
